@@ -31,7 +31,7 @@ EXPLANATION = (
 )
 
 MANIFEST = {
-    "technique": "static analysis: reorder recognition on canonical terms (swap / remove+append / stable sort forms) with helpers spliced into the caller, CFG ordering/must-pass-through (sentinel last, rename after loop), handler-swallow analysis across store implementations, constant agreement across modules; must-pass-through of the transfer in every put_item; discarded concurrent.futures results; error-swallowing transfer helpers used where the caller cannot stop (comprehension / map / discarded result); position-or-None search helpers and the truthiness trap of position 0; every marker that lets refresh pass over a candidate is the sentinel or an independently stored flag file",
+    "technique": "static analysis: reorder recognition on canonical terms (swap / remove+append / stable sort forms) with helpers spliced into the caller, CFG ordering/must-pass-through (sentinel last, rename after loop), handler-swallow analysis across store implementations, constant agreement across modules; must-pass-through of the transfer in every put_item; discarded concurrent.futures results; error-swallowing transfer helpers used where the caller cannot stop (comprehension / map / discarded result); position-or-None search helpers and the truthiness trap of position 0; every marker that lets refresh pass over a candidate is the sentinel or an independently stored flag file; who-may-call rule: only publish() (or helpers reached from it alone) moves a directory under published/",
     "text": "Decides on all paths the ordering and error-propagation premises under which a crash or failed transfer at any point leaves no index.wtml in the store for an incompletely transferred image and keeps it in approved/.",
     "note": "Trusted: os.listdir returns each name once in arbitrary order; os.rename atomic; open(path,'wb') truncates; a store's single put is not itself atomic (the property only orders the sentinel after all other files).",
 }
